@@ -24,9 +24,11 @@ func (c *StringScanner) VerifCursor() int {
 // call's return; instances are numbered under the same lock that orders the lines.
 
 var verifTrace struct {
-	mu   sync.Mutex
-	file *os.File
-	ids  map[*StringScanner]int
+	mu     sync.Mutex
+	file   *os.File
+	ids    map[*StringScanner]int
+	events int
+	max    int // VERIF_SCAN_TRACE_MAX: once that many lines are written no further instance is admitted (0 = no limit)
 }
 
 func init() {
@@ -35,6 +37,7 @@ func init() {
 		if err == nil {
 			verifTrace.file = f
 			verifTrace.ids = map[*StringScanner]int{}
+			fmt.Sscan(os.Getenv("VERIF_SCAN_TRACE_MAX"), &verifTrace.max)
 		}
 	}
 }
@@ -47,6 +50,9 @@ func (c *StringScanner) verifEvent(op string) {
 	defer verifTrace.mu.Unlock()
 	id, ok := verifTrace.ids[c]
 	if !ok {
+		if op != "new" || (verifTrace.max > 0 && verifTrace.events >= verifTrace.max) {
+			return // an instance is traced from its creation or not at all
+		}
 		id = len(verifTrace.ids) + 1
 		verifTrace.ids[c] = id
 	}
@@ -65,5 +71,6 @@ func (c *StringScanner) verifEvent(op string) {
 	k, l, col := c.position+1, c.Line(), c.Column()
 	fmt.Fprintf(&b, `,"obs":{"k":%d,"line":%d,"col":%d,"peek":%d,"pline":%d,"pcol":%d,"k2":%d,"line2":%d,"col2":%d}}`+"\n",
 		k, l, col, c.Peek(), c.PeekLine(), c.PeekColumn(), c.position+1, c.Line(), c.Column())
+	verifTrace.events++
 	verifTrace.file.WriteString(b.String())
 }
